@@ -8,10 +8,10 @@ import re
 def extract(g, X):
     B = X.BYTE
     iv = X.int_value
-    lx = X.strip_comments(X.read("pdf/src/parser/lexer/mod.rs"))
-    st = X.strip_comments(X.read("pdf/src/parser/lexer/str.rs"))
-    pm = X.strip_comments(X.read("pdf/src/parser/mod.rs"))
-    pr = X.strip_comments(X.read("pdf/src/primitive.rs"))
+    lx = X.source("pdf/src/parser/lexer/mod.rs")
+    st = X.source("pdf/src/parser/lexer/str.rs")
+    pm = X.source("pdf/src/parser/mod.rs")
+    pr = X.source("pdf/src/primitive.rs")
 
     def ws():
         return X.cl(X.ordered(X.pred_fn_set(lx, "is_whitespace"), [0, 32, 13, 10, 9, 12]))
